@@ -31,6 +31,7 @@ def is_iso(x: str) -> bool:
 
 class C19(Monitor):
     prop = "C19"
+    hooks = ("charge",)
 
     def start(self, ctx):
         from nrel.hive.reporting.handler.eventful_handler import EventfulHandler
@@ -47,6 +48,8 @@ class C19(Monitor):
         self.gained = collections.Counter()
         self.adds = self.cancels = 0
         self.timeout = ctx.env.config.sim.request_cancel_time_seconds
+        # the kinds of records the operator has switched on (log_sim_config); a clause about a kind applies when it is logged
+        self.logged = {rt.name.lower() for rt in ctx.env.config.global_config.log_sim_config}
 
     def on_step(self, ctx):
         s, prev = ctx.s, ctx.prev
@@ -64,6 +67,10 @@ class C19(Monitor):
                 ctx.violate("C19", "unparsable-line", f"event.log line is not JSON: {line[:120]}")
                 continue
             by[d.get("report_type", "?")].append(d)
+        L = self.logged
+        for kind in by:
+            if kind not in L:
+                ctx.violate("C19", "record-of-a-kind-that-is-not-logged", f"event.log holds a {kind} record although log_sim_config leaves that kind out")
         # --- parse-back of the fields the other clauses use
         for d in by["vehicle_move_event"]:
             self._num(ctx, d, "distance_km")
@@ -83,12 +90,22 @@ class C19(Monitor):
         for d in by["vehicle_charge_event"]:
             chg[d["station_id"]] += float(d["energy"])
             self.gained[d["vehicle_id"]] += float(d["energy"])
-        for sid in s.stations.keys():
+        # what the vehicles really took on at each station in this step (from the charge calls of the step, not from the log)
+        took = collections.Counter()
+        for fr in ctx.H.get("charge", []):
+            if fr["err"] is None and fr["v0"] is not None and fr["v1"] is not None:
+                took[fr["sid"]] += sum(fr["v1"].energy_gained.values()) - sum(fr["v0"].energy_gained.values())
+        for sid in s.stations.keys() if "station_load_event" in L else ():
             ctx.count("c19_station_load_checks")
             if sid not in load:
                 ctx.violate("C19", "missing-station-load", f"no station load record for {sid} in step {ctx.k}")
-            elif abs(load[sid] - chg.get(sid, 0.0)) > 1e-9 * max(1.0, abs(load[sid])):
+                continue
+            if "vehicle_charge_event" in L and abs(load[sid] - chg.get(sid, 0.0)) > 1e-9 * max(1.0, abs(load[sid])):
                 ctx.violate("C19", "station-load-differs-from-charge-events", f"station {sid}: load {load[sid]} but charge events sum to {chg.get(sid, 0.0)}", station=sid)
+            if abs(load[sid] - took.get(sid, 0.0)) > 1e-9 * max(1.0, abs(load[sid])):
+                ctx.violate("C19", "station-load-differs-from-energy-taken-on-there", f"station {sid}: load record {load[sid]} but vehicles took on {took.get(sid, 0.0)} there in this step (charge records logged: {'vehicle_charge_event' in L})", station=sid)
+            if took.get(sid, 0.0) > 0:
+                ctx.count("c19_station_loads_compared_with_energy_taken_on")
         for d in by["vehicle_move_event"]:
             self.odo[d["vehicle_id"]] += float(d["distance_km"])
         self.adds += len(by["add_request_event"])
@@ -97,7 +114,7 @@ class C19(Monitor):
         addev = {d["request_id"] for d in by["add_request_event"]} | set(ctx.injected_now)
         removed = (set(prev.requests) | addev) - set(s.requests)
         evs = [d["request_id"] for d in by["pickup_request_event"]] + [d["request_id"] for d in by["cancel_request_event"]]
-        if sorted(evs) != sorted(removed):
+        if {"add_request_event", "pickup_request_event", "cancel_request_event"} <= L and sorted(evs) != sorted(removed):
             missing = sorted(removed - set(evs))
             extra = sorted(set(evs) - removed)
             dup = [r for r, c in collections.Counter(evs).items() if c > 1]
@@ -108,7 +125,7 @@ class C19(Monitor):
             if dup:
                 ctx.violate("C19", "request-resolution-recorded-twice", f"requests {dup[:4]} have several pickup/cancel records in one step", requests=dup[:4])
         added = set(s.requests) - set(prev.requests)
-        if not added <= addev:
+        if "add_request_event" in L and not added <= addev:
             ctx.violate("C19", "admission-without-record", f"requests {sorted(added - addev)[:4]} appeared without an add record")
         for v in s.vehicles.values():
             p = prev.vehicles.get(v.id)
@@ -116,7 +133,9 @@ class C19(Monitor):
                 continue
             dm = [d for d in by["vehicle_move_event"] if d["vehicle_id"] == v.id]
             dd = v.distance_traveled_km - p.distance_traveled_km
-            if dd > 0:
+            if "vehicle_move_event" not in L:
+                pass
+            elif dd > 0:
                 ctx.count("c19_moves")
                 if len(dm) != 1:
                     ctx.violate("C19", "move-record-count", f"{v.id} drove {dd} km but has {len(dm)} move records", vehicle=v.id)
@@ -126,7 +145,9 @@ class C19(Monitor):
                 ctx.violate("C19", "move-record-without-move", f"{v.id} did not drive but has a move record", vehicle=v.id)
             dc = [d for d in by["vehicle_charge_event"] if d["vehicle_id"] == v.id]
             g = sum(v.energy_gained.values()) - sum(p.energy_gained.values())
-            if g > 0:
+            if "vehicle_charge_event" not in L:
+                pass
+            elif g > 0:
                 ctx.count("c19_charges")
                 if len(dc) != 1:
                     ctx.violate("C19", "charge-record-count", f"{v.id} gained {g} but has {len(dc)} charge records", vehicle=v.id)
@@ -137,7 +158,9 @@ class C19(Monitor):
             # trip ended by arrival <=> one drop-off record
             arrived = aname(v) == "ServicingTrip" and len(v.vehicle_state.route) == 0 and not (aname(p) == "ServicingTrip" and p.vehicle_state.instance_id == v.vehicle_state.instance_id and len(p.vehicle_state.route) == 0)
             mine = [d for d in by["dropoff_request_event"] if d["vehicle_id"] == v.id]
-            if arrived:
+            if "dropoff_request_event" not in L:
+                pass
+            elif arrived:
                 ctx.count("c19_dropoffs")
                 rid = v.vehicle_state.request.id
                 if len([d for d in mine if d["request_id"] == rid]) != 1:
@@ -168,12 +191,14 @@ class C19(Monitor):
     def finish(self, ctx):
         s = ctx.s
         for v in s.vehicles.values():
-            if abs(self.odo[v.id] - v.distance_traveled_km) > 1e-6 * max(1.0, v.distance_traveled_km):
+            if "vehicle_move_event" in self.logged and abs(self.odo[v.id] - v.distance_traveled_km) > 1e-6 * max(1.0, v.distance_traveled_km):
                 ctx.violate("C19", "odometer-differs-from-move-records", f"{v.id}: odometer {v.distance_traveled_km} km, move records sum to {self.odo[v.id]}", vehicle=v.id)
             g = sum(v.energy_gained.values())
-            if abs(self.gained[v.id] - g) > 1e-6 * max(1.0, g):
+            if "vehicle_charge_event" in self.logged and abs(self.gained[v.id] - g) > 1e-6 * max(1.0, g):
                 ctx.violate("C19", "gained-differs-from-charge-records", f"{v.id}: gained {g}, charge records sum to {self.gained[v.id]}", vehicle=v.id)
         st = self.st.stats
+        if not {"add_request_event", "cancel_request_event"} <= self.logged:
+            return
         if st.requests != self.adds or st.cancelled_requests != self.cancels:
             ctx.violate("C19", "summary-counts-differ-from-records", f"summary counts requests={st.requests} cancelled={st.cancelled_requests}; log has {self.adds} add and {self.cancels} cancel records")
         with contextlib.redirect_stdout(io.StringIO()):
